@@ -5,6 +5,7 @@ package vrt
 import (
 	"fmt"
 	"runtime"
+	"time"
 
 	"gobmc/vsched"
 )
@@ -32,7 +33,14 @@ func Go(name string, fn func()) {
 }
 func Park()                  { vsched.ParkForever() }
 func Advance()               {}
-func AtQuiescence(fn func()) {}
+// AtQuiescence: during a replay the instrumenter routes this call to the scheduler; in a free
+// native run (race-detector confirmation) quiescence is approximated by a short pause.
+func AtQuiescence(fn func()) {
+	go func() {
+		time.Sleep(20 * time.Millisecond)
+		fn()
+	}()
+}
 func Ghost(fn func())        { fn() }
 
 // CallFunc calls f (used as a thread body for intrinsic closures).
